@@ -10,7 +10,7 @@ import ast
 from ..program import AnalysisError, Inconclusive, ClassInfo, ExtClass
 from ..values import (Const, Sym, CRef, FRef, MRef, Bound, Obj, Tup, App, Coll,
                       New, Raise, walk)
-from ..interp import Interp, Hooks, is_private_helper
+from ..interp import Interp, Hooks, is_private_helper, prologue_helpers
 from ..formulas import (LANGS, signatures, FormulaHooks, new_instance)
 from ..report import Finding, RuleResult, floor
 
@@ -475,8 +475,9 @@ class _GuardHooks(FormulaHooks):
         # a private helper next to the entry that does not receive the
         # structure is part of the prologue (parsing / casting / guards),
         # not a checking routine: interpreted
-        return is_private_helper(fi, self.entry) and not any(
-            x == self.kripke_sym for a in args for x in walk(a))
+        return fi.qn in prologue_helpers(self.entry) or (
+            is_private_helper(fi, self.entry) and not any(
+                x == self.kripke_sym for a in args for x in walk(a)))
 
 
 def rule_sort4(prog):
